@@ -146,7 +146,7 @@ class Runner:
         e = dict(self.base_env)
         e.update(self._qq_env(qq))
         if fault:
-            e["VSHIM_FAULT"] = "%s:%s:%d:%d" % (DAEMON_BIN[daemon], fault["cls"], fault["k"], fault["errno"])
+            e["VSHIM_FAULT"] = "%s:%s:%d:%d%s" % (DAEMON_BIN[daemon], fault["cls"], fault["k"], fault["errno"], "+" if fault.get("persist") else "")
         for k, v in env.items():
             if v is not None:
                 e[k] = v
@@ -763,6 +763,17 @@ def smtp_check(sc, cfg, obs, info):
     qq = cfg["qq"]
     db = cfg["databytes"]
     model = SmtpModel(cfg)
+    # one injected system-call failure (socket/open/read/... fails once): the daemon may refuse temporarily or give up at any point, but
+    # whatever it does accept must still obey the transaction and relay rules ("sysfault" scenarios)
+    lenient = bool(cfg.get("sysfault"))
+    if lenient and (not replies or replies[0][0] // 100 == 4):
+        info.update(acks=0, neg4=1, neg5=0, rcpt_ok=0, rcpt_no=0, resets_in_txn=0, data_refused=0, degraded=False, slack=0,
+                    stray=False, eof_in_data=False, hops=False, size=False, quit=False, inv=0, gave_up="start")
+        if obs.commits and qq["mode"] != "noread":
+            return "the daemon gave up at start-up after an injected system-call failure, yet %d objects were committed" % len(obs.commits)
+        if len(replies) > 1:
+            return "the daemon refused service (%d) but went on answering: %r" % (replies[0][0], [x[0] for x in replies][:10])
+        return None
     if not replies or replies[0][0] != 220:
         return "no 220 greeting: %r" % obs.out[:120]
     full = smtp_stream(cmds)
@@ -810,6 +821,8 @@ def smtp_check(sc, cfg, obs, info):
             if alower(verb) in VERBS or b"\0" in l:
                 return "DEGRADE"
             if r >= len(replies):
+                if lenient:
+                    return "DEGRADE"            # the daemon died after the injected failure
                 return "no reply to the line %r sent after a refused DATA" % l[:60] + ctx(i)
             if replies[r][0] // 100 != 5:
                 return "unknown command %r answered %d" % (l[:60], replies[r][0]) + ctx(i)
@@ -827,11 +840,24 @@ def smtp_check(sc, cfg, obs, info):
         pos = end
         t = cmd["t"]
         if r >= len(replies):
+            if lenient:
+                info["gave_up"] = "cmd%d" % i        # the daemon died after the injected failure: nothing more may have been committed
+                break
             return "no reply to command" + ctx(i)
         code = replies[r][0]
         cls = code // 100
         r += 1
         nxt = i + 1
+        if lenient and cls == 4 and t != "data":
+            # temporary refusal under the injected failure: the command had no effect (a refused MAIL may or may not end the transaction)
+            info["neg4"] += 1
+            if t == "mail":
+                model.states = set(model.states) | {(False, None, False, ())}
+            i = nxt
+            continue
+        if lenient and cls == 4 and t == "data":
+            info["neg4"] += 1
+            return degrade()
         if t in ("helo", "ehlo"):
             if cls != 2:
                 return "%s answered %d" % (t, code) + ctx(i)
@@ -908,6 +934,8 @@ def smtp_check(sc, cfg, obs, info):
                 if dec[0] == "stray":
                     info["stray"] = True
                     # qmail-smtpd.8: "returns a temporary error and drops the connection on bare LFs"
+                    if lenient and r >= len(replies):
+                        return degrade()
                     if r >= len(replies) or replies[r][0] // 100 != 4:
                         return "bare LF in DATA not answered with a temporary error" + ctx(i)
                     r += 1
@@ -937,6 +965,8 @@ def smtp_check(sc, cfg, obs, info):
                     if oc in ("neg", "racy", "open"):
                         info["slack"] += 1
                 if r >= len(replies):
+                    if lenient:
+                        return degrade()
                     return "no final reply to DATA" + ctx(i)
                 fcode = replies[r][0]
                 fcls = fcode // 100
@@ -1087,12 +1117,13 @@ def run_smtp_scenario(r, sc, local_ips):
     cut = sc.get("cut")
     if cut is not None:
         stream = stream[:cut]
-    obs = r.run("smtpd", stream, env, sc["qq"], fault=sc.get("fault"))
+    obs = r.run("smtpd", stream, env, sc["qq"], fault=sc.get("fault") or sc.get("sysfault"))
     info = {}
     if obs.rc is None:
         return "INCONCLUSIVE", info, obs
     cfg = model_cfg(sc, env, n, local_ips)
     cfg["fault_at"] = fault_attempt(sc.get("fault"))
+    cfg["sysfault"] = sc.get("sysfault")
     v = smtp_check(sc, cfg, obs, info)
     info["rc"] = obs.rc
     return v, info, obs
